@@ -650,6 +650,10 @@ fn dump_cases(prop: Prop, dir: &Path, count: usize) {
         for _ in 0..count / camps.len().max(1) + 1 {
             if let Ok(tree) = st.new_tree(&mut runner) {
                 let case = tree.current();
+                // samples for the slow platforms (Miri): small capacities and short histories only
+                if std::env::var("VERIF_DUMP_SMALL").is_ok() && (case.engine == Engine::Wide || capacity_of(&case) > 17 || case.ops.len() > 24) {
+                    continue;
+                }
                 let _ = std::fs::write(dir.join(format!("{}-{:03}.case", prop.name(), k)), case.to_text(&[]));
                 let _ = std::fs::write(dir.join(format!("{}-{:03}.bin", prop.name(), k)), case.to_bytes());
                 k += 1;
